@@ -124,8 +124,11 @@ func init() {
 			if withB {
 				k.SetKey("b", true)
 			}
+			if vsched.Choose(2) == 1 {
+				vsched.Settle() // the first instances are inside their functions when the word starts
+			}
 			for i := 0; i < length; i++ {
-				switch vsched.Choose(4) {
+				switch vsched.Choose(6) {
 				case 0:
 					k.RestartRoutine("a")
 				case 1:
@@ -134,6 +137,10 @@ func init() {
 					k.SetContext(context.WithValue(bg, ctxKey{}, i+1), true)
 				case 3:
 					k.RestartAllRoutines()
+				case 4:
+					k.ClearContext()
+				case 5:
+					k.SetContext(context.WithValue(bg, ctxKey{}, i+1), false)
 				}
 				if l := liveKeyed(0); l > 1 {
 					fail("C07.two-live", "%d instances of key a with a live context after a controller call returned", l)
@@ -153,9 +160,15 @@ func init() {
 	}
 	eng.Register(&eng.Scenario{
 		Name: "keyed-restart-word3", Props: []string{"C07"}, ObsNames: stdObs,
-		Doc:   "Keyed: SetContext; SetKey(a); then every word of length 3 over {RestartRoutine(a), ResetRoutine(a), SetContext(fresh,true), RestartAllRoutines}; instances return two steps after cancellation; per-key overlap oracle",
-		Quick: eng.Bounds{PB: 2, Delay: true}, Thorough: eng.Bounds{PB: 3, Delay: true},
+		Doc:   "Keyed: SetContext; SetKey(a); then every word of length 3 over {RestartRoutine(a), ResetRoutine(a), SetContext(fresh,true|false), RestartAllRoutines, ClearContext}; instances return two steps after cancellation; per-key overlap oracle",
+		Quick: eng.Bounds{PB: 1, Delay: true}, Thorough: eng.Bounds{PB: 2, Delay: true, Cap: 60000000},
 		Body: restartWord(3, false),
+	})
+	eng.Register(&eng.Scenario{
+		Name: "keyed-restart-word2", Props: []string{"C07"}, ObsNames: stdObs,
+		Doc:   "Keyed: as keyed-restart-word3 with words of length 2 and a deeper schedule bound",
+		Quick: eng.Bounds{PB: 2, Delay: true}, Thorough: eng.Bounds{PB: 4, Delay: true},
+		Body: restartWord(2, false),
 	})
 	eng.Register(&eng.Scenario{
 		Name: "keyed-restart-2keys", Props: []string{"C07"}, ObsNames: stdObs,
